@@ -174,5 +174,19 @@ pub fn scenarios(ctx: &Ctx) -> Vec<Scenario> {
     for i in 0..ctx.t(1u64, 3u64) {
         v.push(scenario("CL1024", move |c| run::<CL1024Sha256>(c, i, nmax)));
     }
+    // many attributes, hidden positions deep in the vector
+    let quick = ctx.quick();
+    v.push(scenario("CL1024/large-n", move |c| {
+        let mut r = c.rng("c19-large", 0);
+        let shapes: Vec<(usize, Vec<usize>)> = if quick {
+            vec![(70, vec![5, 64]), (33, vec![32])]
+        } else {
+            vec![(70, vec![5, 64]), (96, vec![31, 69, 95]), (33, vec![32]), (130, vec![0, 64, 128, 129]), (17, vec![16])]
+        };
+        let bundles = large_bundles::<CL1024Sha256>(c, &mut r, &shapes);
+        c.count("proofs_attacked", bundles.len() as u64);
+        c.count("large_attribute_count_proofs", bundles.len() as u64);
+        par_for_each(&bundles, 8, |b| attack(c, b));
+    }));
     v
 }
